@@ -966,8 +966,8 @@ static void modeDHist(size_t count, size_t len, size_t maxNodes, vt::Rng& rng)
       case 2:
       case 3:
       case 4:
-        if (!F.dups && !absent && h.related(a, b, true)) break;
         if (rng.chance(1, 4) && a > b) std::swap(a, b);
+        if (!F.dups && !absent && h.related(a, b, true)) break;
         {
           long o = rng.chance(1, 3) ? (rng.chance(3, 4) ? h.freeObj() : static_cast<long>(1 + rng.below(4))) : 0;
           switch (rng.below(3))
